@@ -28,6 +28,7 @@ def oracle_pass(chk, scripts, traces, props, pristine=False):
         changed = False
         prevg = None
         ret = fsoracle.Retired()
+        rq = fsoracle.Requests()
         for rec in recs:
             ev = sc['events'][rec['seq']] if rec['seq'] >= 0 else {}
             if ev.get('op') == 'Reconfigure' and rec['reply']['class'] == 'ok' and ev['config'] != '__CURRENT__':
@@ -36,6 +37,8 @@ def oracle_pass(chk, scripts, traces, props, pristine=False):
             fs = fsoracle.ta_state_findings(rec, cfg, sc['_machine'], prevg)
             prevg = {g['id']: g for g in ((rec.get('ta') or {}).get('grants') or [])}
             fs += ret.step(ev, rec)
+            if rec['seq'] >= 0:
+                fs += rq.step(ev, rec)
             if pristine and rec.get('tag') == 'quiescent':
                 fs += fsoracle.ta_pristine_findings(recs[0], rec, not changed)
             for f in fs:
